@@ -106,6 +106,21 @@ type Statement struct {
 	lookupOptions             storage.LookupOptions
 	filters                   []*FilterClause
 	workingFilter             *FilterClause
+	hooks                     hookState
+}
+
+// hookState is the scratch state the semantic hooks keep between two calls
+// while one statement is being parsed.
+type hookState struct {
+	dataS            *node.Node
+	dataP            *predicate.Predicate
+	dataO            *triple.Object
+	lastNopSubject   *lexer.Token
+	lastNopPredicate *lexer.Token
+	lastNopObject    *lexer.Token
+	lastNopVar       *lexer.Token
+	boundsOp         *lexer.Token
+	boundsLast       *lexer.Token
 }
 
 // GraphClause represents a clause of a graph pattern in a where clause.
